@@ -89,6 +89,13 @@ Theorem C17_jacobi_correct_partial : forall jac : Z -> Z -> Z,
 Proof. exact jacobi_correct. Qed.
 Print Assumptions C17_jacobi_correct_partial.
 
+(* a value is returned for every odd positive y: the logarithmic fuel of the
+   model's loop is never exhausted (the first component at least halves every
+   two iterations) *)
+Theorem C17_jacobi_total : forall x y, 0 < y -> Z.odd y = true -> exists j, jacobi x y = Some j.
+Proof. exact jacobi_total. Qed.
+Print Assumptions C17_jacobi_total.
+
 Theorem C17_jacobi_refuses : forall x y, y <= 0 \/ Z.even y = true -> jacobi x y = None.
 Proof. exact jacobi_refuses. Qed.
 Print Assumptions C17_jacobi_refuses.
